@@ -769,7 +769,7 @@ LONG_STRINGS = ["\u5b57" * 22, "\u043a\u043b\u044e\u0447\u2192" * 6, "a\u00e9" *
                 # three shifts of a run of 3-byte characters: every byte offset from 1 to 300 falls inside a character in two of them
                 "\u20ac" * 100, "a" + "\u20ac" * 100, "ab" + "\u20ac" * 100]
 LONG_LIST = [{"i": str(i)} for i in range(70)]
-WRONG = [None, True, LONG_STRINGS[0], LONG_STRINGS[1], LONG_STRINGS[8], LONG_STRINGS[10], LONG_STRINGS[11], LONG_STRINGS[12], LONG_LIST, "ctl\u0008\u000c\u001b\u007f\u00ad\u200b", {"i": "1"}, {"i": "1000"}, {"n": "-3"}, {"f": "3ff8000000000000"}, "str", [], [{"i": "1"}], {"m": []}, {"m": [["a", None]]},
+WRONG = [None, True, "{location}", "{accepted} {suggestion}", LONG_STRINGS[0], LONG_STRINGS[1], LONG_STRINGS[8], LONG_STRINGS[10], LONG_STRINGS[11], LONG_STRINGS[12], LONG_LIST, "ctl\u0008\u000c\u001b\u007f\u00ad\u200b", {"i": "1"}, {"i": "1000"}, {"n": "-3"}, {"f": "3ff8000000000000"}, "str", [], [{"i": "1"}], {"m": []}, {"m": [["a", None]]},
          {"i": "18446744073709551615"}, {"n": "-9223372036854775808"}, "!bad", {"i": "3"}, [{"i": "1"}, {"i": "2"}, {"i": "3"}],
          {"f": "7ff8000000000000"}, [{"f": "7ff0000000000000"}, {"i": "1"}, {"f": "fff0000000000000"}], {"m": [["a", {"f": "7ff8000000000000"}], ["b", [{"f": "7ff0000000000000"}]]]}]
 
@@ -854,7 +854,7 @@ def mutate_once(p, rng, extra_keys=()):
     if op == "range":
         return set_at(p, path, wi(rng.choice([255, 256, 65536, 2**31, 2**32, 2**63, 2**64 - 1, -1, -129, -32769, -2**31 - 1, -2**63, 0, 127, 128, 1000, 3, 7])))
     if op == "str":
-        return set_at(p, path, rng.choice(["", "ab", "!x", "é", "a,b,,c", ",1", "1,,2", ",", "1,x", "1,x,3", "1,2,x", "x,1,y", "256", "Alpha", "alpha", "abé", "ab\U0001f980", "\u0008\u000c\u007f", near_miss(cur, rng),
+        return set_at(p, path, rng.choice(["", "ab", "!x", "é", "a,b,,c", ",1", "1,,2", ",", "1,x", "1,x,3", "1,2,x", "x,1,y", "256", "{}", "{0}", "{value}", "{location}", "{accepted}", "{suggestion}", "{received}", "{expected}", "see {location} for details", "{key}", "{field}", "{msg}", "%s", "%1$s", "`x`", "$1", "${k}", "\\n", "a`b`c", "{{}}", "Alpha", "alpha", "abé", "ab\U0001f980", "\u0008\u000c\u007f", near_miss(cur, rng),
                                            rng.choice(LONG_STRINGS), rng.choice(LONG_STRINGS)]))
     if op == "ws":
         # blank is not empty: whitespace-only segments of comma-separated lists, padded elements, padded scalars
@@ -871,7 +871,7 @@ def mutate_once(p, rng, extra_keys=()):
     elif op == "del_member" and new["m"]:
         del new["m"][rng.randrange(len(new["m"]))]
     elif op == "extra_key":
-        pool = list(extra_keys) + ["extra", "zzz", "type", "x", "0", "", "$schema", "_comment", "_id", "$ref", "#", "@type", "__proto__"]
+        pool = list(extra_keys) + ["extra", "zzz", "type", "x", "0", "", "{}", "{key}", "{location}", "{accepted}", "{suggestion}", "%s", "`k`", "$schema", "_comment", "_id", "$ref", "#", "@type", "__proto__"]
         new["m"].insert(rng.randint(0, len(new["m"])), [rng.choice(pool), copy.deepcopy(rng.choice(WRONG))])
     elif op == "near_key" and new["m"]:
         k = rng.choice(new["m"])[0]
